@@ -44,21 +44,28 @@ def discharge(pc, goal, timeout_ms=10000, use_cvc5=True, want_model=True):
     s.set("timeout", timeout_ms)
     from .slicing import relevant
     rel = relevant(pc, [goal])
+    if any(_has_quant(x) for x in rel + [goal]):
+        # universally quantified hypotheses (ring invariants).  Quantifier instantiation is sensitive to term
+        # numbering, so a small portfolio (pure E-matching / default, several seeds, short budgets) is tried
+        # before the single long attempt below; any `unsat` discharges, a `sat` is left to the final attempt.
+        for k, (ematch, seed, budget) in enumerate([(True, 0, 4000), (False, 0, 4000), (True, 1, 4000),
+                                                    (False, 1, 6000), (True, 2, 8000), (True, 3, 8000)]):
+            s2 = z3.Solver()
+            s2.set("timeout", min(timeout_ms, budget))
+            s2.set("random_seed", seed)
+            if ematch:
+                s2.set("auto_config", False)
+                s2.set("smt.mbqi", False)
+            s2.add(*rel)
+            s2.add(z3.Not(goal))
+            r2 = s2.check()
+            if r2 == z3.unsat:
+                return "proved", "z3-ematching" if ematch else "z3", time.time() - t0, None, None
+            if r2 == z3.sat and not ematch:
+                return "refuted", "z3", time.time() - t0, s2.model(), None
     s.add(*rel)
     s.add(z3.Not(goal))
     r = s.check()
-    if r == z3.unknown and any(_has_quant(x) for x in rel + [goal]):
-        # universally quantified hypotheses (ring invariants): retry with pure E-matching, which is what the
-        # ghost-index encoding is designed for (model-based instantiation often diverges on it)
-        s2 = z3.Solver()
-        s2.set("timeout", timeout_ms)
-        s2.set("auto_config", False)
-        s2.set("smt.mbqi", False)
-        s2.add(*rel)
-        s2.add(z3.Not(goal))
-        r2 = s2.check()
-        if r2 == z3.unsat:
-            return "proved", "z3-ematching", time.time() - t0, None, None
     dt = time.time() - t0
     if r == z3.unsat:
         return "proved", "z3", dt, None, None
@@ -116,6 +123,8 @@ class FunctionVerifier:
         self.results = []
         self.paths = 0
         self.info = {}
+        self.defer = True
+        self.deferred = []
         self.findings = [f for f in (findings or []) if f.get("obligation", "").startswith(c.qual + "/")]
         self.all_findings = findings or []
         self.setup = setup
@@ -138,7 +147,16 @@ class FunctionVerifier:
         eng.cur_obl_prefix = ""
         return eng
 
-    def run(self):
+    def count_cases(self):
+        mi, ci, fn = self.repo.function(self.c.qual)
+        eng0 = self.build_engine()
+        shapes = self.param_shapes(eng0, mi, ci, fn)
+        n = 1
+        for p, s in shapes.items():
+            n *= len(expand_oneof(Maker(eng0).resolve(s) if s.kind != 'class' else s))
+        return n
+
+    def run(self, only_case=None):
         c = self.c
         t0 = time.time()
         mi, ci, fn = self.repo.function(c.qual)
@@ -151,6 +169,8 @@ class FunctionVerifier:
             combos = [dict(cb, **{p: x}) for cb in combos for x in expand_oneof(Maker(eng0).resolve(s) if s.kind != 'class' else s)]
         self.info["input_cases"] = len(combos)
         for k, combo in enumerate(combos):
+            if only_case is not None and k != only_case:
+                continue
             eng = self.build_engine() if k else eng0
             self.run_case(eng, mi, ci, fn, combo, f"case{k}" if len(combos) > 1 else "")
         self.info["wall_s"] = round(time.time() - t0, 3)
@@ -255,8 +275,10 @@ class FunctionVerifier:
                         self.frame(eng, mk, shapes, old, s1, env, tag, everything=True)
                     continue
                 if allowed is None:
-                    self.obligation(eng, mk, shapes, f"{c.qual}/raises:none:{exc.name}", tag, s1.pc,
-                                    z3.BoolVal(False), "raises")
+                    r_ = self.obligation(eng, mk, shapes, f"{c.qual}/raises:none:{exc.name}", tag, s1.pc,
+                                         z3.BoolVal(False), "raises")
+                    r_.detail = (r_.detail + " " if r_.detail else "") + "raised with: " + \
+                        ", ".join(str(getattr(a, "s", a))[:80] for a in exc.args)
                 else:
                     g = eng.spec_bool(old._clone(pc=s1.pc), allowed, spec_env, "prove", c.spec_module) \
                         if isinstance(allowed, str) else z3.BoolVal(True)
@@ -270,6 +292,7 @@ class FunctionVerifier:
         for ob in eng.side_obligations:
             key = (ob.kind if ob.kind == "precondition" else "side", tuple(x.get_id() for x in ob.pc))
             groups.setdefault(key, []).append(ob)
+        grouped = []
         for gi, ((kind, _), obs) in enumerate(groups.items()):
             if kind == "precondition" or len(obs) == 1:
                 for ob in obs:
@@ -280,12 +303,16 @@ class FunctionVerifier:
             labels = sorted({ob.name.split('#')[0] for ob in obs})
             r = self.obligation(eng, mk, shapes, f"{c.qual}/side:no-overflow[{'+'.join(labels)}]",
                                 f"group{gi}" + (f"@{case}" if case else ""), obs[0].pc, conj, "side")
+            grouped.append((r, obs))
+        self.flush()
+        for r, obs in grouped:
             r.detail = (r.detail + " " if r.detail else "") + f"conjunction of {len(obs)} side conditions"
             if r.status != "proved":
                 self.results.remove(r)
                 for ob in obs:
                     self.obligation(eng, mk, shapes, f"{c.qual}/{ob.kind}:{ob.name.split('#')[0]}",
                                     ob.name.split('#')[1] + (f"@{case}" if case else ""), ob.pc, ob.goal, ob.kind)
+        self.flush()
         for label, ok in canary_refuted.items():
             r = Result(f"{c.qual}/canary:{label}{('@' + case) if case else ''}", "canary")
             r.status = "proved" if ok else "refuted"
@@ -386,6 +413,63 @@ class FunctionVerifier:
     def obligation(self, eng, mk, shapes, name, tag, pc, goal, kind, witnesses=()):
         r = Result(name, kind)
         r.path = tag
+        if self.defer:
+            self.results.append(r)
+            self.deferred.append((r, eng, mk, shapes, name, pc, goal, witnesses))
+            return r
+        return self._discharge_into(r, eng, mk, shapes, name, pc, goal, witnesses)
+
+    def flush(self, workers=8):
+        """discharge the deferred obligations, fanned out over forked workers (terms are shared copy-on-write)"""
+        todo, self.deferred = self.deferred, []
+        if not todo:
+            return
+        saved = self.defer
+        self.defer = False
+        try:
+            workers = min(workers, int(os.environ.get('PYVC_WORKERS', '4')))
+            if len(todo) < 100 or workers <= 1:
+                for (r, eng, mk, shapes, name, pc, goal, wit) in todo:
+                    self.results.remove(r)
+                    self._discharge_into(r, eng, mk, shapes, name, pc, goal, wit)
+                return
+            import json as _json
+            kids = []
+            for w in range(workers):
+                rd, wr = os.pipe()
+                pid = os.fork()
+                if pid == 0:
+                    os.close(rd)
+                    out = {}
+                    try:
+                        for i in range(w, len(todo), workers):
+                            (r, eng, mk, shapes, name, pc, goal, wit) = todo[i]
+                            keep = list(self.results)
+                            self._discharge_into(r, eng, mk, shapes, name, pc, goal, wit)
+                            self.results = keep
+                            out[i] = r.to_json()
+                    except BaseException as ex:      # noqa
+                        out["error"] = f"{type(ex).__name__}: {ex}"
+                    with os.fdopen(wr, "w") as f:
+                        f.write(_json.dumps(out))
+                    os._exit(0)
+                os.close(wr)
+                kids.append((pid, rd))
+            for pid, rd in kids:
+                with os.fdopen(rd) as f:
+                    data = f.read()
+                os.waitpid(pid, 0)
+                out = _json.loads(data) if data else {"error": "worker died"}
+                if "error" in out:
+                    raise Unsupported("obligation worker failed: " + out["error"])
+                for i, rj in out.items():
+                    r = todo[int(i)][0]
+                    for k, v in rj.items():
+                        setattr(r, k, v)
+        finally:
+            self.defer = saved
+
+    def _discharge_into(self, r, eng, mk, shapes, name, pc, goal, witnesses=()):
         # known findings: prove the clause outside the listed regions
         regions = [f for f in self.findings if f.get("obligation") == name and "region" in f]
         g = goal
@@ -419,7 +503,8 @@ class FunctionVerifier:
                     r.known.append({"id": f["id"], "still_fails": True, "model":
                                     {p: mk.concretise(m2, s, p) for p, s in shapes.items() if s.kind != "class"}
                                     if m2 is not None else None})
-        self.results.append(r)
+        if r not in self.results:
+            self.results.append(r)
         return r
 
     def region_term(self, eng, mk, shapes, text):
